@@ -124,7 +124,8 @@ pub fn gen_policy(r: &mut Rng) -> (Policy, u8, u64) {
         50..=63 => Policy::Pct(r.range(1, 3) as u8),
         64..=71 => Policy::SpawnerFirst,
         72..=79 => Policy::SpawnerLast,
-        80..=87 => Policy::NewestFirst,
+        80..=84 => Policy::NewestFirst,
+        85..=87 => Policy::GrowLate(*r.pick(&[8u8, 16, 32, 64, 128])),
         _ => Policy::Starve(match r.below(6) {
             0 => 255,
             k => (k - 1) as u8,
@@ -313,7 +314,7 @@ pub fn generate(prop: &str, seed: u64) -> Scenario {
     }
     // one scenario in 120 of the value properties is large (1.1 k .. 6 k elements, chunk sizes beyond 1024), with
     // closures that are yield points only every 2^k-th event; its verdict needs the returned value only
-    if matches!(prop, "C01" | "C02" | "C03" | "C04" | "C07") && !scn.src.is_collection() && scn.src != Src::IterEndless {
+    if matches!(prop, "C01" | "C02" | "C03" | "C04" | "C07" | "C13") && !scn.src.is_collection() && scn.src != Src::IterEndless {
         let mut r = Rng::stream(seed, 0x1A46E);
         let ok_term = !matches!(scn.term, Term::ForEach);
         if r.chance(1, 120) && ok_term && scn.pre == 0 {
